@@ -1,4 +1,435 @@
+// orphan engine (rule guard.orphan, DESIGN §2.4): nullness of forest pointers whose origin is
+// forest::getForestWithID(...) / dd_edge::getForest() — the two functions that return nullptr once
+// an edge's forest has been destroyed.  Path-sensitive forward dataflow over the CFG; a pointer in
+// state MaybeNull may be dereferenced only under a dominating non-null fact.
+//
+// Accepted guards (each enumerated from dd_edge.cc / dd_edge.h and itself checked):
+//   * a null test of the pointer (if (p), if (!p), p == nullptr, p != 0);
+//   * dd_edge::iterator: a test of `atEnd`, or of a pointer field allocated together with F
+//     (M, U_from, …): init_with_forest sets atEnd and leaves them null exactly when F is null
+//     (checked by rule guard.orphan.iterator-init in lib/rules_orphan.py);
+//   * dd_edge: a test `node != 0`: a non-zero node is stored only under a non-null forest test
+//     (obligation kind "node-store" below) and unregisterDDEdges zeroes node when the forest dies.
 #include "common.h"
+
 namespace msa {
-llvm::json::Value runOrphan(ASTContext &Ctx) { return nullptr; }
+using llvm::json::Array;
+using llvm::json::Object;
+using llvm::json::Value;
+
+namespace {
+
+bool isForestPtr(QualType QT) {
+  if (QT.isNull() || !QT->isPointerType()) return false;
+  const CXXRecordDecl *RD = QT->getPointeeType()->getAsCXXRecordDecl();
+  return RD && RD->getIdentifier() && nameIs(RD, "forest");
 }
+
+struct St {
+  std::map<const ValueDecl *, char> nul; // 'N' maybe null (from a source), 'Y' non-null, 'U' unknown
+  signed char atEnd = -1;                // iterator: -1 unknown, 0 false, 1 true
+  bool nodeNZ = false;                   // dd_edge: this->node known non-zero
+  std::set<const ValueDecl *> attached;  // edges e for which e.isAttachedTo(p) holds with p not known null
+  std::string key() const {
+    std::ostringstream os;
+    for (auto &p : nul) os << (const void *)p.first << p.second << ";";
+    for (auto *a : attached) os << "a" << (const void *)a;
+    os << (int)atEnd << nodeNZ;
+    return os.str();
+  }
+};
+
+struct Diag { std::string rule, sink, msg; unsigned line; };
+
+struct An {
+  ASTContext &Ctx;
+  const FunctionDecl *FD;
+  const SourceManager &SM;
+  std::vector<Diag> diags;
+  unsigned derefs = 0, nodeStores = 0, states = 0;
+  bool isIter = false, isEdge = false, giveUp = false;
+  const FieldDecl *fieldF = nullptr;
+  std::set<const FieldDecl *> coFields;
+  std::set<std::pair<const Stmt *, std::string>> reported;
+  std::set<const Stmt *> counted;
+
+  An(ASTContext &C, const FunctionDecl *F) : Ctx(C), FD(F), SM(C.getSourceManager()) {}
+
+  void report(const char *rule, const Stmt *At, const std::string &sink, const std::string &msg) {
+    if (!reported.insert({At, sink}).second) return;
+    diags.push_back({rule, sink, msg, lineOf(SM, At->getBeginLoc())});
+  }
+
+  bool isOwnSource(const Expr *E0) {
+    const Expr *E = strip(E0);
+    auto *CE = dyn_cast_or_null<CallExpr>(E);
+    if (!CE) return false;
+    const FunctionDecl *C = calleeOf(CE);
+    if (!C) return false;
+    std::string n = qualName(C);
+    if (n == "MEDDLY::forest::getForestWithID" && CE->getNumArgs() == 1) {
+      if (auto *ME = dyn_cast<MemberExpr>(strip(CE->getArg(0))))
+        return isa<CXXThisExpr>(strip(ME->getBase())) && ME->getMemberDecl()->getName() == "parentFID";
+    }
+    if (n == "MEDDLY::dd_edge::getForest")
+      if (auto *MC = dyn_cast<CXXMemberCallExpr>(CE)) return isa<CXXThisExpr>(strip(MC->getImplicitObjectArgument()));
+    return false;
+  }
+  bool isSource(const Expr *E0) {
+    const Expr *E = strip(E0);
+    if (auto *CE = dyn_cast_or_null<CallExpr>(E))
+      if (const FunctionDecl *C = calleeOf(CE)) {
+        std::string n = qualName(C);
+        return n == "MEDDLY::forest::getForestWithID" || n == "MEDDLY::dd_edge::getForest";
+      }
+    return false;
+  }
+  const ValueDecl *refOf(const Expr *E0) {
+    const Expr *E = strip(E0);
+    if (auto *DR = dyn_cast_or_null<DeclRefExpr>(E)) return DR->getDecl();
+    if (auto *ME = dyn_cast_or_null<MemberExpr>(E))
+      if (isa<CXXThisExpr>(strip(ME->getBase()))) return ME->getMemberDecl();
+    return nullptr;
+  }
+  // x.getForest() with x a named object: returns x's declaration
+  const ValueDecl *getterObject(const Expr *E0) {
+    if (auto *MC = dyn_cast_or_null<CXXMemberCallExpr>(strip(E0)))
+      if (const FunctionDecl *F = calleeOf(MC)) if (qualName(F) == "MEDDLY::dd_edge::getForest") return refOf(MC->getImplicitObjectArgument());
+    return nullptr;
+  }
+  // any call that may modify an edge object forgets what was known about its forest
+  void invalidate(St &S, const CallExpr *CE, const FunctionDecl *C) {
+    if (S.attached.empty()) return;
+    if (auto *MC = dyn_cast<CXXMemberCallExpr>(CE)) if (auto *MD = dyn_cast<CXXMethodDecl>(C)) if (!MD->isConst())
+      if (const ValueDecl *X = refOf(MC->getImplicitObjectArgument())) S.attached.erase(X);
+    unsigned off = (isa<CXXOperatorCallExpr>(CE) && isa<CXXMethodDecl>(C)) ? 1 : 0;
+    if (off) if (auto *MD = dyn_cast<CXXMethodDecl>(C)) if (!MD->isConst()) if (const ValueDecl *X = refOf(CE->getArg(0))) S.attached.erase(X);
+    for (unsigned i = 0; i + off < CE->getNumArgs() && i < C->getNumParams(); i++) {
+      QualType PT = C->getParamDecl(i)->getType();
+      if (PT->isLValueReferenceType() && !PT.getNonReferenceType().isConstQualified())
+        if (const ValueDecl *X = refOf(CE->getArg(i + off))) S.attached.erase(X);
+    }
+  }
+  bool coFieldRef(const ValueDecl *V) {
+    if (auto *F = dyn_cast_or_null<FieldDecl>(V)) return coFields.count(F) > 0;
+    return false;
+  }
+  char stateOfExpr(St &S, const Expr *E) {
+    if (isa<CXXNullPtrLiteralExpr>(strip(E)) || isa<GNUNullExpr>(strip(E))) return 'N';
+    if (isSource(E)) return (isOwnSource(E) && S.nodeNZ) ? 'Y' : 'N';
+    if (const ValueDecl *R = refOf(E)) { auto it = S.nul.find(R); return it == S.nul.end() ? 'U' : it->second; }
+    return 'U';
+  }
+
+  // p-> … with p a forest pointer
+  void derefForest(St &S, const Expr *Base, const Stmt *At) {
+    if (counted.insert(At).second) derefs++;
+    if (isSource(Base)) {
+      if (isOwnSource(Base) && S.nodeNZ) return;
+      if (auto *MC = dyn_cast_or_null<CXXMemberCallExpr>(strip(Base)))
+        if (const ValueDecl *X = refOf(MC->getImplicitObjectArgument())) if (S.attached.count(X)) return;
+      report("guard.orphan", At, "direct", "result of getForest()/getForestWithID() is dereferenced without a null test (the forest may have been destroyed)");
+      return;
+    }
+    const ValueDecl *V = refOf(Base);
+    if (!V) return;
+    auto it = S.nul.find(V);
+    if (it != S.nul.end() && it->second == 'N') {
+      if (isIter && V == fieldF && S.atEnd == 0) return;
+      report("guard.orphan", At, V->getNameAsString(), "'" + V->getNameAsString() + "' may be null (forest destroyed or never attached) and is dereferenced");
+    }
+  }
+  // use of an iterator field that is allocated only when F is non-null
+  void derefCoField(St &S, const ValueDecl *V, const Stmt *At) {
+    if (counted.insert(At).second) derefs++;
+    if (!fieldF) return;
+    auto it = S.nul.find(fieldF);
+    if (it == S.nul.end() || it->second != 'N') return;
+    if (S.atEnd == 0) return;
+    auto iv = S.nul.find(V);
+    if (iv != S.nul.end() && iv->second == 'Y') return;
+    report("guard.orphan", At, V->getNameAsString(), "iterator field '" + V->getNameAsString() + "' is null whenever F is null (end iterator) and is dereferenced without an atEnd/F/" + V->getNameAsString() + " test");
+  }
+
+  void visitDerefs(St &S, const Stmt *X) {
+    // member access through a pointer
+    if (auto *ME = dyn_cast<MemberExpr>(X)) {
+      if (ME->isArrow()) {
+        const Expr *B = ME->getBase();
+        if (isForestPtr(B->getType())) derefForest(S, B, X);
+        else if (isIter) if (const ValueDecl *V = refOf(B)) if (coFieldRef(V)) derefCoField(S, V, X);
+      }
+      return;
+    }
+    if (auto *AS = dyn_cast<ArraySubscriptExpr>(X)) {
+      if (isIter) if (const ValueDecl *V = refOf(AS->getBase())) if (coFieldRef(V)) derefCoField(S, V, X);
+      return;
+    }
+    if (auto *UO = dyn_cast<UnaryOperator>(X)) {
+      if (UO->getOpcode() == UO_Deref) {
+        const Expr *B = UO->getSubExpr();
+        if (isForestPtr(B->getType())) derefForest(S, B, X);
+        else if (isIter) if (const ValueDecl *V = refOf(B)) if (coFieldRef(V)) derefCoField(S, V, X);
+      }
+      return;
+    }
+  }
+
+  void stmt(St &S, const Stmt *X) {
+    visitDerefs(S, X);
+    if (auto *CE = dyn_cast<CallExpr>(X)) {
+      // bound member callee p->f(): the MemberExpr is not always its own CFG element
+      if (auto *MC = dyn_cast<CXXMemberCallExpr>(CE))
+        if (auto *ME = dyn_cast<MemberExpr>(MC->getCallee()->IgnoreParens())) visitDerefs(S, ME);
+      const FunctionDecl *C = calleeOf(CE);
+      if (!C) return;
+      invalidate(S, CE, C);
+      std::string cn = qualName(C);
+      if (isIter && fieldF && nameIs(C, "init_with_forest") && CE->getNumArgs() == 1) {
+        S.nul[fieldF] = stateOfExpr(S, CE->getArg(0));
+        S.atEnd = -1;
+        return;
+      }
+      // calling a private helper of the iterator class hands it the class invariant "F non-null"
+      if (isIter && fieldF) if (auto *MD = dyn_cast<CXXMethodDecl>(C)) if (nameIs(MD->getParent(), "iterator") && MD->getAccess() != AS_public && !isa<CXXConstructorDecl>(MD) && !nameIs(C, "init_with_forest")) {
+        if (auto *MC = dyn_cast<CXXMemberCallExpr>(CE)) if (isa<CXXThisExpr>(strip(MC->getImplicitObjectArgument()))) {
+          if (counted.insert(X).second) derefs++;
+          auto it = S.nul.find(fieldF);
+          if (it != S.nul.end() && it->second == 'N' && S.atEnd != 0)
+            report("guard.orphan", X, C->getNameAsString(), "private iterator helper " + C->getNameAsString() + "() assumes a live forest but is called without an atEnd/F test");
+        }
+      }
+      // callees that dereference their forest argument unconditionally
+      static const char *derefArg[] = {"MEDDLY::unpacked_node::New", "MEDDLY::unpacked_node::newFromNode", "MEDDLY::unpacked_node::newRedundant", "MEDDLY::unpacked_node::newIdentity",
+                                       "MEDDLY::unpacked_node::newWritable", "MEDDLY::minterm::minterm", "MEDDLY::node_marker::node_marker", nullptr};
+      for (int i = 0; derefArg[i]; i++) if (cn == derefArg[i]) {
+        for (unsigned a = 0; a < CE->getNumArgs() && a < C->getNumParams(); a++) if (isForestPtr(C->getParamDecl(a)->getType())) {
+          if (counted.insert(CE->getArg(a)).second) derefs++;
+          if (stateOfExpr(S, CE->getArg(a)) == 'N') report("guard.orphan", X, "arg:" + C->getNameAsString(), "possibly-null forest pointer passed to " + cn + ", which dereferences it");
+        }
+      }
+      return;
+    }
+    if (auto *CC = dyn_cast<CXXConstructExpr>(X)) {
+      std::string cn = qualName(CC->getConstructor());
+      if (cn == "MEDDLY::minterm::minterm" || cn == "MEDDLY::node_marker::node_marker") {
+        for (unsigned a = 0; a < CC->getNumArgs() && a < CC->getConstructor()->getNumParams(); a++) if (isForestPtr(CC->getConstructor()->getParamDecl(a)->getType())) {
+          if (counted.insert(CC->getArg(a)).second) derefs++;
+          if (stateOfExpr(S, CC->getArg(a)) == 'N') report("guard.orphan", X, "arg:" + CC->getConstructor()->getNameAsString(), "possibly-null forest pointer passed to " + cn + ", which dereferences it");
+        }
+      }
+      return;
+    }
+    if (auto *DS = dyn_cast<DeclStmt>(X)) {
+      for (auto *D : DS->decls()) if (auto *VD = dyn_cast<VarDecl>(D)) if (isForestPtr(VD->getType())) S.nul[VD] = VD->hasInit() ? stateOfExpr(S, VD->getInit()) : 'U';
+      return;
+    }
+    if (auto *BO = dyn_cast<BinaryOperator>(X)) {
+      if (BO->getOpcode() != BO_Assign) return;
+      const ValueDecl *L = refOf(BO->getLHS());
+      if (!L) return;
+      if (isForestPtr(BO->getLHS()->getType())) { S.nul[L] = stateOfExpr(S, BO->getRHS()); return; }
+      if (isIter && nameIs(L, "atEnd")) {
+        auto *BL = dyn_cast<CXXBoolLiteralExpr>(strip(BO->getRHS()));
+        bool setsTrue = BL && BL->getValue();
+        if (!setsTrue && fieldF) {
+          // class invariant behind the atEnd guard: atEnd may only become false on an iterator that has a forest
+          if (counted.insert(X).second) derefs++;
+          auto it = S.nul.find(fieldF);
+          if (it != S.nul.end() && it->second == 'N' && S.atEnd != 0)
+            report("guard.orphan", X, "atEnd", "atEnd may become false on an iterator whose forest pointer F is null (breaks `!atEnd ⇒ F alive`, which operator++/operator*/equals rely on)");
+        }
+        if (BL) S.atEnd = BL->getValue() ? 1 : 0; else S.atEnd = -1;
+        return;
+      }
+      if (isIter && coFieldRef(L)) {
+        const Expr *R = strip(BO->getRHS());
+        S.nul[L] = isa<CXXNewExpr>(R) ? 'Y' : ((isa<CXXNullPtrLiteralExpr>(R) || isa<GNUNullExpr>(R)) ? 'N' : 'U');
+        return;
+      }
+      if (isEdge && nameIs(L, "node") && isa<FieldDecl>(L)) {
+        // class invariant behind the `node != 0` guard: a possibly non-zero handle is stored only under a live forest
+        const Expr *R = strip(BO->getRHS());
+        bool zero = false;
+        if (auto *IL = dyn_cast<IntegerLiteral>(R)) zero = IL->getValue() == 0;
+        nodeStores++;
+        if (!zero) {
+          bool live = false;
+          for (auto &p : S.nul) if (p.second == 'Y' && isForestPtr(p.first->getType())) live = true;
+          if (!live) report("guard.orphan.node-store", X, "node", "dd_edge::node receives a possibly non-zero handle on a path with no established live forest (breaks the `node != 0 ⇒ forest alive` invariant that getLevel relies on)");
+        }
+        S.nodeNZ = false;
+        return;
+      }
+    }
+  }
+
+  bool refine(St &N, const Expr *C0, bool truth) {
+    const Expr *C = strip(C0);
+    while (auto *UO = dyn_cast_or_null<UnaryOperator>(C)) { if (UO->getOpcode() != UO_LNot) break; truth = !truth; C = strip(UO->getSubExpr()); }
+    if (!C) return true;
+    auto setNN = [&](const ValueDecl *V) { N.nul[V] = 'Y'; if (coFieldRef(V) && fieldF) N.nul[fieldF] = 'Y'; };
+    // `if (x.getForest())` / `if (!x.getForest()) throw …`: the getter of the same edge object is non-null afterwards
+    // (until x is modified: see invalidate())
+    if (const ValueDecl *X = getterObject(C)) { if (truth) N.attached.insert(X); return true; }
+    if (const ValueDecl *V = refOf(C)) {
+      if (isIter && nameIs(V, "atEnd") && isa<CXXThisExpr>(strip(cast<MemberExpr>(C)->getBase()))) {
+        if (truth) { if (N.atEnd == 0) return false; N.atEnd = 1; } else { if (N.atEnd == 1) return false; N.atEnd = 0; if (fieldF) N.nul[fieldF] = 'Y'; }
+        return true;
+      }
+      if (isForestPtr(C->getType()) || coFieldRef(V)) {
+        if (truth) setNN(V);
+        else { auto it = N.nul.find(V); if (it != N.nul.end() && it->second == 'Y') return false; }
+        return true;
+      }
+      if (isEdge && nameIs(V, "node") && isa<FieldDecl>(V)) { if (truth) nodeKnownNZ(N); return true; }
+      return true;
+    }
+    if (auto *BO = dyn_cast<BinaryOperator>(C)) {
+      auto op = BO->getOpcode();
+      const Expr *L = strip(BO->getLHS()), *R = strip(BO->getRHS());
+      auto isNull = [](const Expr *E) { return isa<CXXNullPtrLiteralExpr>(E) || isa<GNUNullExpr>(E) || (isa<IntegerLiteral>(E) && cast<IntegerLiteral>(E)->getValue() == 0); };
+      if (op == BO_EQ || op == BO_NE) {
+        bool eq = (op == BO_EQ) == truth;
+        const ValueDecl *V = nullptr;
+        if (isNull(L)) V = refOf(R); else if (isNull(R)) V = refOf(L);
+        if (isNull(L) || isNull(R)) if (const ValueDecl *X = getterObject(isNull(L) ? R : L)) { if (!eq) N.attached.insert(X); return true; }
+        if (V && (isForestPtr(V->getType()) || coFieldRef(V))) {
+          if (!eq) setNN(V);
+          else { auto it = N.nul.find(V); if (it != N.nul.end() && it->second == 'Y') return false; }
+          return true;
+        }
+        if (V && isEdge && nameIs(V, "node") && isa<FieldDecl>(V)) { if (!eq) nodeKnownNZ(N); return true; }
+        // p == q with q non-null
+        const ValueDecl *A = refOf(L), *B = refOf(R);
+        if (A && B && isForestPtr(A->getType()) && isForestPtr(B->getType()) && eq) {
+          auto ia = N.nul.find(A), ib = N.nul.find(B);
+          if (ia != N.nul.end() && ia->second == 'Y') N.nul[B] = 'Y';
+          else if (ib != N.nul.end() && ib->second == 'Y') N.nul[A] = 'Y';
+        }
+        return true;
+      }
+      if ((op == BO_GT || op == BO_LT) && isEdge) {
+        // node > 0 / 0 < node
+        const ValueDecl *V = nullptr;
+        if (op == BO_GT && isNull(R)) V = refOf(L);
+        if (op == BO_LT && isNull(L)) V = refOf(R);
+        if (V && nameIs(V, "node") && isa<FieldDecl>(V) && truth) nodeKnownNZ(N);
+      }
+      return true;
+    }
+    if (auto *MC = dyn_cast<CXXMemberCallExpr>(C)) {
+      // e.isAttachedTo(p) holds ⇒ e.getForest() == p; accepted as a guard of e.getForest()-> when p is not itself
+      // a possibly-null pointer (an operation's own forest member, a constructor argument, …)
+      if (const FunctionDecl *F = calleeOf(MC)) if (qualName(F) == "MEDDLY::dd_edge::isAttachedTo" && truth && MC->getNumArgs() == 1)
+        if (const ValueDecl *X = refOf(MC->getImplicitObjectArgument())) if (stateOfExpr(N, MC->getArg(0)) != 'N') N.attached.insert(X);
+    }
+    return true;
+  }
+  void nodeKnownNZ(St &N) {
+    N.nodeNZ = true;
+    // pointers already obtained from the edge's own id are non-null under the invariant
+    for (auto &p : N.nul) if (p.second == 'N' && ownRefs.count(p.first)) p.second = 'Y';
+  }
+  std::set<const ValueDecl *> ownRefs;
+
+  void run() {
+    if (auto *MD = dyn_cast<CXXMethodDecl>(FD)) {
+      const CXXRecordDecl *RD = MD->getParent();
+      if (nameIs(RD, "iterator") && qualName(RD) == "MEDDLY::dd_edge::iterator") {
+        isIter = true;
+        for (auto *F : RD->fields()) {
+          if (nameIs(F, "F")) fieldF = F;
+          else if (F->getType()->isPointerType() && !nameIs(F, "mask")) coFields.insert(F);
+        }
+      }
+      if (qualName(RD) == "MEDDLY::dd_edge") isEdge = true;
+    }
+    // which locals are initialised from the edge's own forest id (for the node != 0 invariant)
+    struct OV : RecursiveASTVisitor<OV> {
+      An *A;
+      bool VisitVarDecl(VarDecl *VD) { if (VD->hasInit() && isForestPtr(VD->getType()) && A->isOwnSource(VD->getInit())) A->ownRefs.insert(VD); return true; }
+    } ov;
+    ov.A = this;
+    ov.TraverseDecl(const_cast<FunctionDecl *>(FD));
+
+    std::unique_ptr<CFG> cfg = buildCFG(Ctx, FD);
+    if (!cfg) { giveUp = true; return; }
+    St Init;
+    if (isIter && fieldF) {
+      bool ctorLike = isa<CXXConstructorDecl>(FD) || nameIs(FD, "init_with_forest");
+      auto *MD = cast<CXXMethodDecl>(FD);
+      if (ctorLike) Init.nul[fieldF] = 'U';
+      else if (MD->getAccess() == AS_public || isa<CXXDestructorDecl>(FD)) Init.nul[fieldF] = 'N'; // any iterator may be an end iterator
+      else Init.nul[fieldF] = 'U'; // private helper: its callers are checked instead
+    }
+    std::map<const CFGBlock *, std::set<std::string>> seen;
+    std::deque<std::pair<const CFGBlock *, St>> work;
+    work.push_back({&cfg->getEntry(), Init});
+    while (!work.empty()) {
+      auto BS = work.front();
+      work.pop_front();
+      const CFGBlock *B = BS.first;
+      St S = BS.second;
+      if (!seen[B].insert(S.key()).second) continue;
+      if (++states > 200000) { giveUp = true; return; }
+      bool thrown = false;
+      for (const CFGElement &E : *B) {
+        if (auto CS = E.getAs<CFGStmt>()) {
+          const Stmt *X = CS->getStmt();
+          if (isa<CXXThrowExpr>(X)) { thrown = true; break; }
+          stmt(S, X);
+        }
+      }
+      if (thrown) continue;
+      const Expr *TC = effectiveCond(B);
+      unsigned si = 0;
+      for (auto SI = B->succ_begin(); SI != B->succ_end(); ++SI, ++si) {
+        const CFGBlock *Su = SI->getReachableBlock();
+        if (!Su) continue;
+        St N = S;
+        bool ok = true;
+        if (TC && B->succ_size() == 2) ok = refine(N, TC, si == 0);
+        if (ok) work.push_back({Su, N});
+      }
+    }
+  }
+};
+
+} // namespace
+
+Value runOrphan(ASTContext &Ctx) {
+  const SourceManager &SM = Ctx.getSourceManager();
+  Array fns;
+  forEachFunction(Ctx, [&](const FunctionDecl *FD) {
+    An A(Ctx, FD);
+    A.run();
+    if (A.derefs == 0 && A.nodeStores == 0 && A.diags.empty()) return;
+    Object f;
+    f["q"] = qualName(FD);
+    f["inst"] = instName(Ctx, FD);
+    f["sig"] = signatureOf(FD);
+    f["file"] = relPath(SM, FD->getLocation());
+    f["line"] = lineOf(SM, FD->getLocation());
+    f["derefs"] = (int64_t)A.derefs;
+    f["node_stores"] = (int64_t)A.nodeStores;
+    f["states"] = (int64_t)A.states;
+    f["gave_up"] = A.giveUp;
+    Array ds;
+    for (auto &d : A.diags) {
+      Object o;
+      o["rule"] = d.rule;
+      o["sink"] = d.sink;
+      o["msg"] = d.msg;
+      o["line"] = (int64_t)d.line;
+      ds.push_back(std::move(o));
+    }
+    f["diags"] = std::move(ds);
+    fns.push_back(std::move(f));
+  });
+  Object top;
+  top["functions"] = std::move(fns);
+  return Value(std::move(top));
+}
+
+} // namespace msa
